@@ -1,4 +1,4 @@
-import AcqVerif.Runtime.Client
+import AcqVerif.Runtime.Init
 /-! Line-protocol driver for the runtime data-path model M1 (`acq_runtime`), see harness/runtime/h_runtime.c (cosim mode) -/
 open AcqVerif.Runtime AcqVerif.Channel
 
@@ -65,22 +65,18 @@ def kvHas (toks : List String) (key : String) (suffix : String) : Bool :=
 
 structure Scen where
   ring : Nat := 4096
-  streams : List Stream := [{}, {}]
+  streams : List (Option StreamCfg) := [none, none]
   prog : List COp := []
 
-def mkStream (ring : Nat) (toks : List String) : Stream :=
-  let fresh : Sys := (step (Sys.init ring) .join).1     -- the reader registered by video_sink_init / video_filter_init
-  { valid := true, F := (kvNat toks "F").getD 104, maxFrames := (kvNat toks "n").getD 0,
+def mkStream (toks : List String) : StreamCfg :=
+  { F := (kvNat toks "F").getD 104, n := (kvNat toks "n").getD 0,
     setText := s!"{(kvNat toks "w").getD 0}x{(kvNat toks "h").getD 0} t{(kvNat toks "type").getD 0} trig0",
-    sinkCh := fresh, filtCh := fresh,
-    cam := { failAt := kvNat toks "camfail", failPersistent := kvHas toks "camfail" "p", emptyEvery := (kvNat toks "camempty").getD 0 },
-    sto := { failAt := kvNat toks "stofail", failPersistent := kvHas toks "stofail" "p" } }
+    camFail := kvNat toks "camfail", camFailP := kvHas toks "camfail" "p", camEmpty := (kvNat toks "camempty").getD 0,
+    stoFail := kvNat toks "stofail", stoFailP := kvHas toks "stofail" "p" }
 
 def runDecisions (sc : Scen) (ds : List Nat) : List String := Id.run do
-  let fresh : Sys := (step (Sys.init sc.ring) .join).1
-  let streams := sc.streams.map fun st => if st.valid then st else { st with sinkCh := fresh, filtCh := fresh }
-  -- the client is already running when the window opens: it is parked at the first yield of its first call
-  let (rt0, o0) := clientBoot { streams := streams, client := { prog := sc.prog } }
+  -- the initial state is the one the theorems start from (`AcqVerif.Runtime.initRT`, `bootRT`)
+  let (rt0, o0) := clientBoot (initRT sc.ring sc.streams sc.prog)
   let mut rt : RT := rt0
   let mut out : Array String := #["RUN"]
   for l in o0 do out := out.push l
@@ -106,7 +102,7 @@ partial def loop (h : IO.FS.Stream) (out : IO.FS.Stream) (sc : Scen) : IO Unit :
     match toks with
     | _ :: s :: rest =>
       let i := s.toNat?.getD 0
-      loop h out { sc with streams := sc.streams.set i (mkStream sc.ring rest) }
+      loop h out { sc with streams := sc.streams.set i (some (mkStream rest)) }
     | _ => loop h out sc
   else if l.startsWith "prog " then
     loop h out { sc with prog := ((l.drop 5).toString.splitOn ";").filterMap parseCOp }
